@@ -122,6 +122,32 @@ fn part_b(depth: usize, roots_w: usize) -> (explore::Stats, Acc) {
                 if got.to_cbor_data() != want.to_cbor_data() { acc.viol(format!("C07|replace_subject|{sn}|differs-from-adding-one-by-one"), "replace_subject onto a new subject gives another envelope than adding the same assertions to that subject one by one", format!("b/{}/replace_subject({sn})", desc()), json!({"envelope": hex::encode(&b), "got": crate::report::ff(&got), "want": crate::report::ff(&want)})) }
             }
         }
+        // the conditional / optional adders are the plain add or the identity
+        {
+            let a = Envelope::new_assertion("cp", "co");
+            let laws = catch(|| {
+                let mut bad: Vec<&'static str> = vec![];
+                let plain = e.add_assertion("cp", "co").to_cbor_data();
+                let same = |x: &Envelope| x.to_cbor_data() == b;
+                if e.add_assertion_if(true, "cp", "co").to_cbor_data() != plain { bad.push("add_assertion_if(true)") }
+                if !same(&e.add_assertion_if(false, "cp", "co")) { bad.push("add_assertion_if(false)") }
+                if e.add_assertion_envelope_if(true, a.clone()).map(|x| x.to_cbor_data()).ok() != Some(plain.clone()) { bad.push("add_assertion_envelope_if(true)") }
+                if !e.add_assertion_envelope_if(false, a.clone()).map(|x| same(&x)).unwrap_or(false) { bad.push("add_assertion_envelope_if(false)") }
+                if !same(&e.add_nonempty_string_assertion("cp", "")) { bad.push("add_nonempty_string_assertion(empty)") }
+                if e.add_nonempty_string_assertion("cp", "co").to_cbor_data() != plain { bad.push("add_nonempty_string_assertion(non-empty)") }
+                if !e.add_optional_assertion_envelope(None).map(|x| same(&x)).unwrap_or(false) { bad.push("add_optional_assertion_envelope(None)") }
+                if e.add_optional_assertion_envelope(Some(a.clone())).map(|x| x.to_cbor_data()).ok() != Some(plain.clone()) { bad.push("add_optional_assertion_envelope(Some)") }
+                if !e.add_optional_assertion_envelope_salted(None, true).map(|x| same(&x)).unwrap_or(false) { bad.push("add_optional_assertion_envelope_salted(None)") }
+                if e.add_optional_assertion_envelope_salted(Some(a.clone()), false).map(|x| x.to_cbor_data()).ok() != Some(plain.clone()) { bad.push("add_optional_assertion_envelope_salted(Some,false)") }
+                if !same(&e.add_optional_assertion("cp", None::<&str>)) { bad.push("add_optional_assertion(None)") }
+                if e.add_optional_assertion("cp", Some("co")).to_cbor_data() != plain { bad.push("add_optional_assertion(Some)") }
+                if e.add_assertion_envelopes(&[a.clone()]).map(|x| x.to_cbor_data()).ok() != Some(plain.clone()) { bad.push("add_assertion_envelopes") }
+                if e.add_assertions(&[a.clone()]).to_cbor_data() != plain { bad.push("add_assertions") }
+                bad
+            });
+            acc.add("law_checks", 14);
+            match laws { Ok(bad) => for x in bad { acc.viol(format!("C07|adder-variant|{x}"), format!("{x} is neither the plain add nor the identity"), format!("b/{}/{x}", desc()), json!({"envelope": hex::encode(&b)})) }, Err(_) => acc.inc("panics_counted_under_C16") }
+        }
         acc.inc("law_checks");
         match catch(|| e.wrap_envelope().unwrap_envelope()) {
             Ok(Ok(r)) => if r.to_cbor_data() != b { acc.viol("C07|wrap-unwrap|differs", "unwrap(wrap(e)) differs from e", format!("b/{}/wrap-unwrap", desc()), json!({"envelope": hex::encode(&b)})) },
